@@ -38,7 +38,7 @@ func init() {
 			ruleReaderWindow(c, r, "")
 			ruleNilOnErr(c, r, "")
 			ruleLitInit(c, r, "")
-			ruleReadAdvance(c, r, "")
+			ruleLoopAdvanceExact(c, r, "")
 			ruleNilDecoder(c, r, "")
 			ruleXZReaderBounds(c, r)
 			t := getChunkTables(c, r, "")
